@@ -52,6 +52,14 @@ CLAIMED = {
              'queried for reachability (sampled hints evaluated by z3, then cvc5/z3 race) and replayed.',
         note='FP part: lengths in [1e-3,1e3]; builtin sum modelled as CPython 3.12 Neumaier summation; zero-division leaves asked with a 3 s budget and reported inconclusive when z3 does not answer. point() of real segments is C03/C04.',
         design='3/C05'),
+    'C09': dict(
+        text='Line/Quadratic/Cubic reversed, split, cropped(0,t1), cropped(t0,1) (Line: also interior) run on symbolic control points and '
+             'parameters and are shown by z3 to trace point(1-u), point(u t), point(t+u(1-t)), point(t0+u(t1-t0)) (identities, all values). '
+             'Interior crop: the real crop_bezier runs with radialrange replaced by its contract (returns the parameter of the queried point); '
+             'composition, queried point and trimmed curve are checked.  Path.reversed / Path.cropped run on n<=3 stub segments (wrap-around '
+             'n=2, thorough 3..4): piece list compared with a measure/adjacency/location oracle for all T0,T1 incl. joints.',
+        note='Arc.reversed/split/cropped are not covered yet (Angle domain). Path.cropped positions compared up to 2.5e-5 (np.isclose snapping); one recorded known finding (snapping window at joints / path ends). radialrange optimality is C13.',
+        design='3/C09'),
 }
 
 NOT_YET = 'check not built yet in this round (see DESIGN.md section 3 for the plan)'
